@@ -54,6 +54,7 @@ TARGETS = [
     ("calcDirection", "xrspatial/proximity.py", "_calc_direction", dict(x1="num", x2="num", y1="num", y2="num")),
     # the red-black status tree of viewshed.py: tree_vals is (n, 8) numeric, tree_nodes is (n, 4) integer; the
     # NIL node is index -1 = the last row (numba's negative index wraps; ILang's normIdx models it)
+    ("areaConnectivity", "xrspatial/zonal.py", "_area_connectivity", dict(data="f2", n="int")),
     ("vsFindValueMin", "xrspatial/viewshed.py", "_find_value_min_value", dict(tree_vals="f2", node_id="int")),
     ("vsTreeMinimum", "xrspatial/viewshed.py", "_tree_minimum", dict(tree_nodes="i2", x="int")),
     ("vsTreeSuccessor", "xrspatial/viewshed.py", "_tree_successor", dict(tree_nodes="i2", x="int")),
@@ -180,6 +181,7 @@ class Fn:
         self.amap = dict(amap or {})            # array parameter -> name in the outermost program
         self.types = dict(ptypes)                # local name -> sort
         self.ret_types = None
+        self.optional = set()                    # locals that are also bound to None: a flag `<name>$some` goes with them
         self.report = report if report is not None else dict(casts=[], inlined=[])
         self.tmp = 0
         if depth > 4:
@@ -237,7 +239,9 @@ class Fn:
                 if len(s.targets) != 1:
                     raise Untranslatable("chained assignment")
                 t = s.targets[0]
-                if isinstance(t, ast.Name):
+                if isinstance(t, ast.Name) and isinstance(s.value, ast.Constant) and s.value.value is None:
+                    self.optional.add(t.id)
+                elif isinstance(t, ast.Name):
                     self.bind(t.id, self.sort(s.value, alloc_ok=True))
                 elif isinstance(t, ast.Tuple) and all(isinstance(e, ast.Name) for e in t.elts):
                     tys = self.sorts_of_tuple(s.value, len(t.elts))
@@ -390,8 +394,12 @@ class Fn:
                 return "num"
             return "int" if a == "int" and b == "int" else "num"
         if isinstance(e, (ast.Compare, ast.BoolOp)):
+            if alloc_ok and self.bare_arrays(e):
+                return "i1"
             return "bool"
         if isinstance(e, ast.Subscript):
+            if alloc_ok and self.is_where0(e):
+                return "i1"
             base = e.value
             if isinstance(base, ast.Attribute) and base.attr == "shape":
                 return "int"
@@ -467,7 +475,41 @@ class Fn:
             return list(a.elts)
         return [a]
 
+    def bare_arrays(self, e):
+        """1-D arrays used as whole values (not subscripted) in an expression"""
+        out = []
+
+        def walk(n, sub=False):
+            if isinstance(n, ast.Subscript):
+                walk(n.slice)
+                if not isinstance(n.value, ast.Name):
+                    walk(n.value)
+                return
+            if isinstance(n, ast.Call):
+                for a in n.args:
+                    walk(a)
+                return
+            if isinstance(n, ast.Name) and self.types.get(n.id) in ("f1", "i1"):
+                out.append(n.id)
+            for c in ast.iter_child_nodes(n):
+                walk(c)
+        walk(e)
+        return out
+
+    def is_where0(self, e):
+        return (isinstance(e, ast.Subscript) and const_int(e.slice) == 0 and isinstance(e.value, ast.Call)
+                and src(e.value.func) == "np.where" and len(e.value.args) == 1 and isinstance(e.value.args[0], ast.Name)
+                and self.types.get(e.value.args[0].id) == "i1")
+
     def alloc_sort(self, e):
+        if self.is_where0(e):
+            return "i1"
+        if isinstance(e, (ast.Compare, ast.BoolOp)) and self.bare_arrays(e):
+            return "i1"
+        if isinstance(e, ast.BinOp) and self.bare_arrays(e):
+            return "f1"
+        if not isinstance(e, ast.Call):
+            return None
         fn = src(e.func)
         if fn in ("np.zeros", "np.ones", "np.empty", "np.full"):
             shape = e.args[0] if e.args else next((k.value for k in e.keywords if k.arg == "shape"), None)
@@ -708,6 +750,11 @@ class Fn:
         raise Untranslatable("condition " + src(e))
 
     def compare(self, a, op, b):
+        if isinstance(op, (ast.Is, ast.IsNot)):
+            if isinstance(a, ast.Name) and a.id in self.optional and isinstance(b, ast.Constant) and b.value is None:
+                some = f"(.var {lstr(self.v(a.id + '$some'))})"
+                return some if isinstance(op, ast.IsNot) else f"(.not {some})"
+            raise Untranslatable("identity test " + src(a) + " " + src(b))
         if type(op) not in self.CMP:
             raise Untranslatable("comparison " + src(op))
         o = self.CMP[type(op)]
@@ -927,12 +974,17 @@ class Fn:
                 return [self.assign_text(self.v(e.id), self.types[e.id], v) for e, v in zip(t.elts, value.elts)]
             raise Untranslatable("tuple assignment " + src(s))
         if isinstance(t, ast.Name):
+            if isinstance(value, ast.Constant) and value.value is None and t.id in self.optional:
+                return [f"(.setB {lstr(self.v(t.id + '$some'))} .ff)"]
             ty = self.types.get(t.id)
             if ty in ARR:
                 return self.alloc(t.id, ty, value)
             if ty is None:
                 raise Untranslatable("no sort for " + t.id)
-            return [self.assign_text(self.v(t.id), ty, value)]
+            out = [self.assign_text(self.v(t.id), ty, value)]
+            if t.id in self.optional:
+                out.append(f"(.setB {lstr(self.v(t.id + '$some'))} .tt)")
+            return out
         if isinstance(t, ast.Subscript):
             # whole-array fill  a[:] = e
             if isinstance(t.value, ast.Name) and isinstance(t.slice, ast.Slice) and t.slice.lower is None \
@@ -966,6 +1018,44 @@ class Fn:
         factor = None
         if isinstance(value, ast.BinOp) and isinstance(value.op, ast.Mult):      # np.ones(...) * c
             value, factor = value.left, value.right
+        if self.is_where0(value):
+            # nm = np.where(mask)[0]: the positions of the non-zero entries of a 0/1 mask, in order
+            mask = self.arr_name(value.value.args[0].id)
+            self.tmp += 1
+            k, c = self.v(f"where{self.tmp}$k"), self.v(f"where{self.tmp}$n")
+            return [f"(.allocI {lstr(nm)} [(.sum {lstr(mask)})] (.lit 0))",
+                    f"(.setI {lstr(c)} (.lit 0))",
+                    f"(.forRange {lstr(k)} (.lit 0) (.dim {lstr(mask)} 0) (.lit 1)\n"
+                    f"  (.ite (.cmpI .ne (.ld1 {lstr(mask)} (.var {lstr(k)})) (.lit 0))\n"
+                    f"    (.seq (.stI1 {lstr(nm)} (.var {lstr(c)}) (.var {lstr(k)}))\n"
+                    f"    (.setI {lstr(c)} (.bin .add (.var {lstr(c)}) (.lit 1))))\n    .skip))"]
+        bare = self.bare_arrays(value) if not isinstance(value, ast.Call) else []
+        if bare:
+            # elementwise expression over 1-D arrays of one length (broadcast against scalars): an explicit loop
+            self.tmp += 1
+            k = f"elem{self.tmp}$k"
+            first = self.arr_name(bare[0])
+
+            class Sub(ast.NodeTransformer):
+                def visit_Subscript(self_, n):
+                    return n
+                def visit_Name(self_, n):
+                    if n.id in bare:
+                        return ast.Subscript(value=ast.Name(id=n.id, ctx=ast.Load()), slice=ast.Name(id="$row:" + self.v(k), ctx=ast.Load()), ctx=ast.Load())
+                    return n
+            import copy
+            elem = Sub().visit(copy.deepcopy(value))
+            same = [f"(.cmpI .eq (.dim {lstr(self.arr_name(b))} 0) (.dim {lstr(first)} 0))" for b in bare[1:]]
+            guard = []
+            for g in same:
+                guard.append(f"(.ite {g}\n  .skip\n  (.fail \"broadcast\"))")
+            if kind == "I":
+                body = f"(.ite {self.be(elem)}\n    (.stI1 {lstr(nm)} (.var {lstr(self.v(k))}) (.lit 1))\n    (.stI1 {lstr(nm)} (.var {lstr(self.v(k))}) (.lit 0)))"
+                al = f"(.allocI {lstr(nm)} [(.dim {lstr(first)} 0)] (.lit 0))"
+            else:
+                body = f"(.stF1 {lstr(nm)} (.var {lstr(self.v(k))}) {self.fe(elem)})"
+                al = f"(.allocF {lstr(nm)} [(.dim {lstr(first)} 0)] (.lit 0 1))"
+            return guard + [al, f"(.forRange {lstr(self.v(k))} (.lit 0) (.dim {lstr(first)} 0) (.lit 1)\n  {body})"]
         if isinstance(value, ast.Call) and isinstance(value.func, ast.Attribute) and value.func.attr == "astype" \
                 and isinstance(value.func.value, ast.Name) and value.func.value.id == name:
             self.report["casts"].append(src(value)[:60])
